@@ -18,7 +18,7 @@ type GenCfg struct {
 	Adversarial bool // bias scalars to extremes
 	// Class selects an adversarial value class for all scalars of a workload:
 	// "" (mixed), "neg" (all negative / high bit set), "tiny" (two-value domains, many equal),
-	// "nan" (floats mostly NaN/Inf/zero), "sentinel" (strings around "__#NIL#__").
+	// "nan" (floats mostly NaN/Inf/zero), "sentinel" (strings around "__#NIL#__"), "longstr" (60..146-byte strings with long common prefixes).
 	Class string
 }
 
@@ -101,6 +101,13 @@ func genGroup(t *rapid.T, g *Node, cfg GenCfg) *Val {
 	return out
 }
 
+// inner returns the configuration used below the first repeated level: long lists are only
+// drawn at the outermost repeated level (nested long lists multiply).
+func (c GenCfg) inner() GenCfg {
+	c.LongList = 0
+	return c
+}
+
 func genInner(t *rapid.T, n *Node, cfg GenCfg) *Val {
 	if n.Kind == Group {
 		return genGroup(t, n, cfg)
@@ -126,7 +133,7 @@ func genNode(t *rapid.T, n *Node, cfg GenCfg) *Val {
 			out.E = true
 		}
 		for i := 0; i < ln; i++ {
-			out.L = append(out.L, genInner(t, n, cfg))
+			out.L = append(out.L, genInner(t, n, cfg.inner()))
 		}
 		return out
 	}
@@ -200,6 +207,17 @@ func genClassLeaf(t *rapid.T, k Kind, cfg GenCfg, label string) *Val {
 			return &Val{U: uint64(rapid.SampledFrom(f32Specials).Draw(t, label))}
 		case Float64:
 			return &Val{U: rapid.SampledFrom(f64Specials).Draw(t, label)}
+		}
+	case "longstr":
+		if k == String {
+			// long strings sharing a long prefix: the extreme value of a page is longer than any fixed-size cut-off
+			n := rapid.IntRange(60, 140).Draw(t, label+"#plen")
+			b := make([]byte, n)
+			for i := range b {
+				b[i] = byte('a' + i%3)
+			}
+			suf := rapid.SliceOfN(rapid.ByteRange('a', 'z'), 0, 6).Draw(t, label)
+			return &Val{S: Bytes(append(b, suf...))}
 		}
 	case "sentinel":
 		if k == String {
